@@ -8,7 +8,7 @@ unchanged.  The loop invariants are generated from the same formula ("map loops"
 (Inverter, Rectifier, Square, Diode, Sign, Identity, Inverser, Thresholder) are verified with Apply.execute inlined and
 their own lambda.  Second batch: Shift (y(t) = x(t - k), NaN outside), ShiftRight / ShiftLeft / ShiftRev through it,
 ScalarDivider (x * (1 / k)), ScalarRevDivider (k * (1 / x)) and the read-only aggregates Sum, Averager (folds over the
-non-NaN values), Min, Max; Reverser and Log store their result with track[name] = list (Track.__setitem__, C01).
+non-NaN values), Min, Max, Argmax, Zeros, Mse, Rmse; Debiaser from the contracts of Averager and ScalarAdder; Reverser and Log store their result with track[name] = list (Track.__setitem__, C01).
 The expression parser / RPN evaluator (string rewriting, recursion over unbounded strings) is bounded only."""
 import z3
 from pyvc.kinds import *
@@ -191,13 +191,52 @@ def register(reg):
                  ensures=[("above-every-value", "all(not (col(track, af_input, q) > result) for q in range(0, %s))" % N),
                           ("one-of-the-values-or-the-initial-bound", "result == -1e+300 or any(same(result, col(track, af_input, q)) for q in range(0, %s))" % N)]))
     funcs += [OPS + c + ".execute" for c in ("Sum", "Averager", "Min", "Max")]
+    # third batch: Argmax (index of a largest value above -1e300, NaN never selected), Zeros (the indices of the zero values, in order)
+    cq = "col(track, af_input, %s)"
+    reg.add(Spec(OPS + "Argmax.execute", dict(self="Argmax", **AP), "int", requires=AGG_REQ[:2],
+                 loops={"1": LoopSpec(inv=["not isnan(maximum) and maximum >= -1e+300", "0 <= idmax and (idmax < i or idmax == 0)", "implies(maximum == -1e+300, idmax == 0)",
+                                           "implies(maximum > -1e+300, idmax < i and same(maximum, %s))" % (cq % "idmax"),
+                                           "all(not (%s > maximum) for q in range(0, i))" % (cq % "q"),
+                                           "all(implies(q < idmax, not (%s >= maximum and maximum > -1e+300)) for q in range(0, i))" % (cq % "q")])},
+                 ensures=[("an-index", "0 <= result and (result < %s or result == 0)" % N),
+                          ("largest-of-the-values-above-minus-1e300", "all(implies(%s > -1e+300, %s > -1e+300 and %s >= %s) for q in range(0, %s))"
+                           % (cq % "q", cq % "result", cq % "result", cq % "q", N)),
+                          ("first-index-of-the-largest", "all(implies(q < result, not (%s >= %s)) for q in range(0, %s))"
+                           % (cq % "q", cq % "result", N))]))
+    reg.add(Spec(OPS + "Zeros.execute", dict(self="Zeros", **AP), "list[int]", requires=AGG_REQ[:2], locals=dict(zeros="list[int]"),
+                 loops={"1": LoopSpec(inv=["all(0 <= zeros[k] and zeros[k] < i and %s == 0 for k in range(0, len(zeros)))" % (cq % "zeros[k]"),
+                                           "all(zeros[k] < zeros[k + 1] for k in range(0, len(zeros) - 1))",
+                                           "all(implies(%s == 0, any(zeros[k] == q for k in range(0, len(zeros)))) for q in range(0, i))" % (cq % "q")])},
+                 ensures=[("only-indices-of-zero-values", "all(0 <= result[k] and result[k] < %s and %s == 0 for k in range(0, len(result)))" % (N, cq % "result[k]")),
+                          ("in-increasing-order", "all(result[k] < result[k + 1] for k in range(0, len(result) - 1))"),
+                          ("every-zero-value-is-listed", "all(implies(%s == 0, any(result[k] == q for k in range(0, len(result)))) for q in range(0, %s))" % (cq % "q", N))]))
+    funcs += [OPS + c + ".execute" for c in ("Argmax", "Zeros")]
+    # Mse: mean of the squares of the values that are numbers (SQ: ghost list of the squares), Rmse: its square root through Mse's contract
+    SQ_REQ = AGG_REQ[:2] + ["len(SQ) == " + N, "all(same(SQ[r], col(track, af_input, r) * col(track, af_input, r)) for r in range(0, %s))" % N,
+                            "countnn(SQ, %s) > 0" % N]      # no number at all: ZeroDivisionError (0 / 0)
+    reg.add(Spec(OPS + "Mse.execute", dict(self="Mse", **AP), "float", ghost=dict(SQ="list[float]"), requires=SQ_REQ,
+                 loops={"1": LoopSpec(inv=["not isnan(mse)", "mse == sumnn(SQ, i)", "count == countnn(SQ, i)", "mse >= 0", "count >= 0"])},
+                 ensures=[("mean-of-the-squares-of-the-values-that-are-numbers",
+                           "not isnan(result) and result == fdiv(sumnn(SQ, %s), countnn(SQ, %s))" % (N, N)),
+                          ("not-negative", "result >= 0")]))
+    reg.add(Spec(OPS + "Rmse.execute", dict(self="Rmse", **AP), "float", ghost=dict(SQ="list[float]"), requires=SQ_REQ,
+                 ensures=[("root-of-the-mean-of-the-squares",
+                           "not isnan(result) and result >= 0 and result * result == fdiv(sumnn(SQ, %s), countnn(SQ, %s))" % (N, N))]))
+    funcs += [OPS + "Mse.execute", OPS + "Rmse.execute"]
+    # Debiaser: x - mean(x) through the contracts of Averager and ScalarAdder (Track.operate inlined; callee contracts, not bodies)
+    MEAN = "fdiv(sumnn(XS, %s), countnn(XS, %s))" % (N, N)
+    reg.add(Spec(OPS + "Debiaser.execute", dict(self="Debiaser", track="Track", af_input="str", af_output="str"), "list[float]",
+                 ghost=dict(XS="list[float]"), requires=inputs_ok(["af_input"]) + AGG_REQ[2:] + ["countnn(XS, %s) > 0" % N], modifies=MOD,
+                 ensures=[("documented-pointwise-value", "all(same(result[r], %s + (-%s)) for r in range(0, %s))" % (U % "r", MEAN, N))] + common()))
+    funcs.append(OPS + "Debiaser.execute")
     reg.specfuncs["NANV"] = sf_nan
     FUNCTIONS[:] = funcs
 
 
 FUNCTIONS = []
 USES_LIB = True
-ASSUMPTIONS = ["operator objects: inputs are feature names present in the track (not x, y, z, t, idx), the track has at least one observation",
+ASSUMPTIONS = ["math.sqrt (Rmse): r >= 0 and r*r == x for x >= 0 (trusted axiom); math.log (Log) is an uninterpreted function of its argument",
+               "operator objects: inputs are feature names present in the track (not x, y, z, t, idx), the track has at least one observation",
                "division is real division (uninterpreted fdiv); NaN propagates as in IEEE; no rounding (A-REAL)",
-               "Inverser / ScalarRevDivider: no input value is 0, ScalarDivider: the scalar is not 0 (1 / 0 raises ZeroDivisionError there, unlike the binary '/' operator); Averager: at least one value is a number",
-               "the expression parser, makeRPN, __evaluateRPN / __applyOperation dispatch, the circular shifts, powers, modulo, the transcendental functions and the remaining aggregates are bounded only"]
+               "Inverser / ScalarRevDivider: no input value is 0, ScalarDivider: the scalar is not 0 (1 / 0 raises ZeroDivisionError there, unlike the binary '/' operator); Averager / Debiaser / Mse / Rmse: at least one value is a number",
+               "the expression parser, makeRPN, __evaluateRPN / __applyOperation dispatch, the circular shifts, powers, modulo, the transcendental functions and the remaining aggregates (Median, Variance, StdDev, Mad, Covariance, ...) are bounded only"]
